@@ -114,6 +114,13 @@ def rule_ownership(ctx):
         if path.startswith("solvers::"):
             if not any("AAFramework" in t for _, t in tys):
                 continue
+            # the solver objects: the types answering queries (and the types they are built from), not a private bundle of
+            # values a helper hands back (a component framework next to the model found on it)
+            is_solver = any(i.get("self_adt") == path for tr in ("solvers::specs::SingleExtensionComputer", "solvers::specs::CredulousAcceptanceComputer", "solvers::specs::SkepticalAcceptanceComputer") for i in prog.impls_of_trait(tr))
+            held = any(path in f["ty"] for p2, a2 in prog.adts.items() if p2 != path for v in a2["variants"] for f in v["fields"])
+            if not is_solver and not held and str(a.get("vis") or "").startswith("in:"):
+                r.ok(path, "a private value bundle, not a solver object (implements no solver trait, is held by no other type)", None)
+                continue
             n += 1
             r.check(not owned, path, "owns:%s" % owned, "%s owns no framework data" % path.rsplit("::", 1)[-1], "%s owns %s: returned arguments could be copies instead of the caller's" % (path, owned))
         else:
